@@ -122,8 +122,22 @@ func printResult(res *interp.Result) {
 	}
 	sort.Strings(rs)
 	fmt.Println("  reached:", strings.Join(rs, " "))
-	for _, f := range res.Failures {
-		fmt.Printf("  FAILURE kind=%s label=%s choices=%v detail=%.300s\n", f.Kind, f.Label, f.Choices, f.Detail)
+	var fk []string
+	for k, n := range res.FailureCounts {
+		fk = append(fk, fmt.Sprintf("%s x%d", k, n))
+	}
+	sort.Strings(fk)
+	for i, k := range fk {
+		if i >= 40 {
+			fmt.Printf("  ... %d more failure groups\n", len(fk)-i)
+			break
+		}
+		fmt.Println("  FAILURE", k)
+	}
+	if os.Getenv("VERIF_VERBOSE") != "" {
+		for _, f := range res.Failures {
+			fmt.Printf("  FAILURE kind=%s label=%s choices=%v detail=%.600s model=%v\n", f.Kind, f.Label, f.Choices, f.Detail, f.Model)
+		}
 	}
 	for _, x := range res.BoundExceed {
 		fmt.Println("  BOUND:", x)
